@@ -50,7 +50,7 @@ static void gen_structured(chist *h, const vh_cipher *c, uint64_t k, vh_rng *r)
 {
     unsigned bb = c->bb, batch = bb * 8, span = 3 * batch + 18;
     unsigned total = (unsigned)(k % span), pattern = (unsigned)((k / span) % 6);
-    unsigned ctr_kind = (unsigned)((k / span / 6) % 5);
+    unsigned ctr_kind = (unsigned)((k / span / 6) % 6);
     uint8_t buf[64];
     cop *o;
     unsigned left;
@@ -85,6 +85,7 @@ static void gen_structured(chist *h, const vh_cipher *c, uint64_t k, vh_rng *r)
         case 1: memset(buf, 0xFF, bb); buf[bb - 1] = (uint8_t)(0xFF - (k % 9)); break;          /* wrap */
         case 2: kk = 1 + (unsigned)(k % bb); memset(buf + bb - kk, 0xFF, kk); buf[bb - 1] = (uint8_t)(0xFF - (k % 5)); break;
         case 3: vh_rand_bytes(r, buf, bb); break;
+        case 5: vh_fill_msb_boundary(r, buf, bb); break;
         default: o->len = (unsigned)(k % (bb + 1)); vh_rand_bytes(r, buf, bb); if (o->len) buf[o->len - 1] = 0xFE; break;
         }
         o->doff = (uint32_t)h->pool_n; memcpy(h->pool + h->pool_n, buf, o->len); h->pool_n += o->len; o->dlen = o->len;
@@ -152,8 +153,8 @@ static int midstream_change_before(const chist *h, int opi)
 
 static unsigned gflags_for_mode(void)
 {
-    if (!strcmp(vh_arg_mode, "model")) return G_MISALIGN | G_INBETWEEN_KEYS;
-    if (!strcmp(vh_arg_mode, "model-tweaked")) return G_MISALIGN | G_TWEAKED_ONLY | G_SMALL | G_INBETWEEN_KEYS;
+    if (!strcmp(vh_arg_mode, "model")) return G_MISALIGN | G_INBETWEEN_KEYS | G_INVALID;     /* rejected calls are not key/tweak/counter changes: the judged stream continues across them */
+    if (!strcmp(vh_arg_mode, "model-tweaked")) return G_MISALIGN | G_TWEAKED_ONLY | G_SMALL | G_INBETWEEN_KEYS | G_INVALID;
     if (!strcmp(vh_arg_mode, "xbe")) return G_MISALIGN | G_LIFECYCLE | G_INVALID | G_REKEY_MID | G_UNKEYED | G_PLAIN_TWEAK | G_INBETWEEN_KEYS;
     if (!strcmp(vh_arg_mode, "twin")) return G_MISALIGN | G_LIFECYCLE | G_INVALID | G_REKEY_MID | G_UNKEYED | G_SMALL | G_INBETWEEN_KEYS;
     fprintf(stderr, "drv_ctr: unknown mode %s\n", vh_arg_mode); exit(2);
@@ -210,7 +211,8 @@ static void marathon_case(uint64_t idx)
         if (!m.scope || x >= 960) {   /* counter set starts a judged segment */
             unsigned cl = vh_below(&r, 4) ? c->bb : vh_below(&r, c->bb + 1);
             uint8_t cb[16]; vh_rand_bytes(&r, cb, 16);
-            if (!vh_below(&r, 3)) { unsigned k = cl ? 1 + vh_below(&r, cl) : 0; if (k) memset(cb + cl - k, 0xFF, k); if (cl) cb[cl - 1] = (uint8_t)(0xFF - vh_below(&r, 30)); }
+            if (!vh_below(&r, 4)) vh_fill_msb_boundary(&r, cb, cl);
+            else if (!vh_below(&r, 3)) { unsigned k = cl ? 1 + vh_below(&r, cl) : 0; if (k) memset(cb + cl - k, 0xFF, k); if (cl) cb[cl - 1] = (uint8_t)(0xFF - vh_below(&r, 30)); }
             memset(m.ctr, 0, 16); memcpy(m.ctr + c->bb - cl, cb, cl);
             vh_call_begin("ctr_set_counter"); c->ctr_set_counter(&h, cb, cl); vh_call_end();
             m.pos = 0; m.scope = 1;
